@@ -77,21 +77,7 @@ func (eh *wwwAuthenticateErrorHandler) WithConfig(rawConfig map[string]any) (Err
 		return eh, nil
 	}
 
-	type Config struct {
-		Realm string `mapstructure:"realm"`
-	}
-
-	var (
-		conf Config
-		err  error
-	)
-
-	if err = decodeConfig(ErrorHandlerWWWAuthenticate, rawConfig, &conf); err != nil {
-		return nil, err
-	}
-
-	return &wwwAuthenticateErrorHandler{
-		id:    eh.id,
-		realm: conf.Realm,
-	}, nil
+	// the rule level config is handled like the one of the catalogue entry, so that
+	// e.g. an empty realm results in the default one here as well
+	return newWWWAuthenticateErrorHandler(eh.id, rawConfig)
 }
